@@ -1,4 +1,646 @@
-/-! Model/C16 — executable model (core Lean only; imports only NibabelModel.Basic.* / other Model files). -/
+/-
+  Model/C16 — executable model of the TRK / TCK tractogram readers and writers
+  (nibabel/streamlines/tck.py, trk.py; orientation helpers of nibabel/orientations.py), as the
+  code is AFTER the `fix:` commits "TRK/TCK readers restore the file position" (C16) and
+  "TRK reader raises DataError on fewer streamlines than announced" (C08).
+
+  Conventions
+  * a float32 is its BIT PATTERN (`Nat < 2^32`); a point is a `Triple` of bit patterns.  The
+    little-endian byte packing itself (`ndarray.tobytes` / `np.frombuffer`, `struct.pack('<i')`)
+    is NumPy's and is not modelled: a file's data section is a list of 32-bit words (TRK) or of
+    12-byte triples plus `ragged` trailing bytes (TCK).
+  * Python dicts (`data_per_point`, `data_per_streamline`) are association lists LISTED IN SORTED
+    KEY ORDER (the canonical representation of a dict whose iteration order does not matter); the
+    `sorted(...)` calls of `TrkFile.save` are therefore the identity on the model's inputs and are
+    checked by the correspondence (the harness builds the real dicts in random insertion order).
+  * coordinates that go through an affine are exact rationals; `f32OfRat` is the exact
+    `Rat → float32` conversion, defined only where the value is representable (the EXACT
+    correspondence stream stays inside that domain; rounding of general values is NumPy's).
+  * external, modelled-not-verified: `numpy.linalg.inv` (modelled as the exact adjugate inverse
+    `Aff.inv`), `io_orientation` (SVD; enters `trackvisToRas` as the parameter `affOrnt`, with the
+    executable stand-in `ioOrientSP` for signed-permutation × zoom matrices).
+  * errors: `Err.data` = DataError, `Err.header` = HeaderError, `Err.value` = ValueError,
+    `Err.short` = the TypeError/ValueError/struct.error NumPy/struct raise on a short or
+    malformed record, `Err.zerodiv` = ZeroDivisionError.
+-/
 namespace Nb.C16
+
+inductive Err where
+  | data | header | value | short | zerodiv
+  deriving Repr, DecidableEq, Inhabited
+
+def Err.name : Err → String
+  | .data => "ERR:DataError" | .header => "ERR:HeaderError" | .value => "ERR:ValueError"
+  | .short => "ERR:short" | .zerodiv => "ERR:ZeroDivisionError"
+
+/-! ## Decimal representation: `str(n)`, `len(str(n))`, `int(s)` for non-negative ints -/
+
+/-- `len(str(n))` for `n ≥ 0` -/
+def decDigits (n : Nat) : Nat := if n < 10 then 1 else decDigits (n / 10) + 1
+
+/-- `str(n)` as ASCII codes -/
+def decRepr (n : Nat) : List Nat := if n < 10 then [48 + n] else decRepr (n / 10) ++ [48 + n % 10]
+
+def isDigit (c : Nat) : Bool := 48 ≤ c && c ≤ 57
+
+/-- `int(s)` for strings made of ASCII digits only; anything else (incl. the empty string) is
+    `none` = ValueError.  (CPython also accepts surrounding whitespace, a sign and `_`; the
+    correspondence streams avoid those characters.) -/
+def parseDec (s : List Nat) : Option Nat :=
+  if s.isEmpty || !s.all isDigit then none
+  else some (s.foldl (fun acc c => acc * 10 + (c - 48)) 0)
+
+/-! ## TCK header: the `file: . <offset>` arithmetic (tck.py:277-287) -/
+
+/-- `hdr_offset` as written after `file: . ` for a header text `out` of `lenOut` bytes:
+    ```
+    hdr_offset = len(out) + 8 + 3 + 3
+    offset_repr = f'{hdr_offset}'
+    hdr_offset += len(f'{hdr_offset + len(offset_repr)}')
+    ``` -/
+def tckHdrOffset (lenOut : Nat) : Nat :=
+  let h := lenOut + 8 + 3 + 3
+  let reprLen := decDigits h
+  h + decDigits (h + reprLen)
+
+/-- `len('\nfile: . ')` and `len('\nEND\n')` — the text written around the number (tck.py:287) -/
+def tckFilePrefixLen : Nat := 9
+def tckFileSuffixLen : Nat := 5
+
+/-- the REAL byte position at which the data start, for a header whose `file` entry holds `n` -/
+def tckDataStart (lenOut n : Nat) : Nat := lenOut + tckFilePrefixLen + decDigits n + tckFileSuffixLen
+
+/-- reader's buffer size in bytes (tck.py:422-425) given `req = int(buffer_size * MEGABYTE)`:
+    `buffer_size += coordinate_size - (buffer_size % coordinate_size)` with coordinate_size 12 -/
+def tckCoordSize : Nat := 12
+def tckBufferBytes (req : Nat) : Nat := req + (tckCoordSize - req % tckCoordSize)
+
+/-! ## float32 bit patterns -/
+
+abbrev Triple := Nat × Nat × Nat
+
+def isNaN32 (w : Nat) : Bool := (w &&& 0x7F800000) == 0x7F800000 && (w &&& 0x007FFFFF) != 0
+def isInf32 (w : Nat) : Bool := (w &&& 0x7FFFFFFF) == 0x7F800000
+
+/-- `np.isnan(coords).all(axis=1)` — a streamline delimiter -/
+def isDelim (t : Triple) : Bool := isNaN32 t.1 && isNaN32 t.2.1 && isNaN32 t.2.2
+/-- `np.isinf(row).all()` -/
+def isInfTriple (t : Triple) : Bool := isInf32 t.1 && isInf32 t.2.1 && isInf32 t.2.2
+
+/-- `FIBER_DELIMITER` / `EOF_DELIMITER` as written (`np.nan`, `np.inf` as '<f4') -/
+def nanWord : Nat := 0x7FC00000
+def infWord : Nat := 0x7F800000
+def nanTriple : Triple := (nanWord, nanWord, nanWord)
+def infTriple : Triple := (infWord, infWord, infWord)
+
+/-! ## TCK writer (tck.py:229-238): every streamline followed by the NaN triple, then the inf triple -/
+
+def tckData (sls : List (List Triple)) : List Triple :=
+  (sls.map (fun s => s ++ [nanTriple])).flatten ++ [infTriple]
+
+/-! ## TCK chunked reader (tck.py:434-477) -/
+
+/-- `np.where(np.isnan(coords).all(axis=1))[0]`, numbering rows from `off` -/
+def delimIdxs (off : Nat) : List Triple → List Nat
+  | [] => []
+  | t :: ts => if isDelim t then off :: delimIdxs (off + 1) ts else delimIdxs (off + 1) ts
+
+/-- `coords[b:e]` for `0 ≤ b`, `0 ≤ e` -/
+def pySlice {α} (l : List α) (b e : Nat) : List α := (l.drop b).take (e - b)
+
+/-- the `for delim in delims:` loop (tck.py:458-464): returns the yielded streamlines and the final `begin` -/
+def splitAtDelims (coords : List Triple) : Nat → List Nat → List (List Triple) × Nat
+  | begin, [] => ([], begin)
+  | begin, d :: ds =>
+      let pts := pySlice coords begin d
+      let r := splitAtDelims coords (d + 1) ds
+      (if pts.isEmpty then r.1 else pts :: r.1, r.2)
+
+/-- one pass of the `while not eof` body after the read: (yielded, new leftover) -/
+def procChunk (leftover chunk : List Triple) : List (List Triple) × List Triple :=
+  let delims0 := delimIdxs 0 chunk
+  let delims := if leftover.isEmpty then delims0 else delims0.map (· + leftover.length)
+  let coords := if leftover.isEmpty then chunk else leftover ++ chunk
+  let r := splitAtDelims coords 0 delims
+  (r.1, coords.drop r.2)
+
+/-- final check (tck.py:469-474) -/
+def tckEofOk (leftover : List Triple) : Bool :=
+  match leftover with
+  | [t] => isInfTriple t
+  | _ => false
+
+/-- What a reader generator does when run to the end: the items it yields, each with the file
+    position at the moment of the yield, then how it ends and where the file position is then
+    (before the `finally`). -/
+structure GenRun (α : Type) where
+  items : List (α × Nat)
+  err : Option Err
+  endPos : Nat
+
+/-- The loop.  `c` = buffer size in triples (`buffer_size / 12`, positive), `data` = the triples
+    from `_offset_data` to the end of file, `ragged` = number of extra bytes (0..11) after the last
+    whole triple, `pos` = current file position.  A short read is the last one (`eof`); if the
+    bytes read are not whole triples `np.frombuffer`/`reshape` raise ValueError. -/
+def tckLoop (c : Nat) (ragged : Nat) (data leftover : List Triple) (pos : Nat) : GenRun (List Triple) :=
+  if h : 0 < c ∧ c ≤ data.length then
+    let pos' := pos + 12 * c
+    let r := procChunk leftover (data.take c)
+    let rest := tckLoop c ragged (data.drop c) r.2 pos'
+    { rest with items := r.1.map (·, pos') ++ rest.items }
+  else
+    let pos' := pos + 12 * data.length + ragged
+    if ragged ≠ 0 then ⟨[], some .value, pos'⟩
+    else
+      let r := procChunk leftover data
+      ⟨r.1.map (·, pos'), if tckEofOk r.2 then none else some .data, pos'⟩
+termination_by data.length
+decreasing_by simp [List.length_drop]; omega
+
+/-- `TckFile._read(fileobj, header, buffer_size)` run to completion from `_offset_data = off` -/
+def tckRead (c : Nat) (ragged : Nat) (off : Nat) (data : List Triple) : GenRun (List Triple) :=
+  tckLoop c ragged data [] off
+
+/-- whole-stream parse = the reader with a buffer larger than the file -/
+def tckScan (cur : List Triple) : List Triple → List (List Triple) × List Triple
+  | [] => ([], cur)
+  | t :: ts =>
+      if isDelim t then
+        let r := tckScan [] ts
+        (if cur.isEmpty then r.1 else cur :: r.1, r.2)
+      else tckScan (cur ++ [t]) ts
+
+/-- specification of the parse: split at NaN triples, drop empty pieces, what follows the last
+    delimiter must be exactly one inf triple -/
+def tckParseWhole (data : List Triple) : List (List Triple) × Option Err :=
+  let r := tckScan [] data
+  (r.1, if tckEofOk r.2 then none else some .data)
+
+/-! ## Generator protocol and the file position (tck.py:427-480, trk.py:672-732)
+
+  `with Opener(fileobj) as f: start = f.tell(); try: <body with yields> finally: f.seek(start, SEEK_SET)`.
+  The consumer may call `next` any number of times and `close` (explicitly, or implicitly when the
+  generator is garbage-collected: `GeneratorExit` is raised at the suspended `yield`, so the
+  `finally` clause runs).  The ORIGINAL code had `f.seek(start, os.SEEK_CUR)` as the last statement
+  of the body, without try/finally. -/
+
+inductive GState where
+  | fresh                 -- created, body not started: nothing has touched the file
+  | suspended (k : Nat)   -- suspended at the yield of item number k (0-based)
+  | finished              -- returned, raised, or closed
+  deriving Repr, DecidableEq
+
+def GState.isSuspended : GState → Bool
+  | .suspended _ => true
+  | _ => false
+
+structure Gen (α : Type) where
+  run : GenRun α
+  fixed : Bool            -- true: current code (SEEK_SET in finally); false: original code
+  start : Nat             -- file position when the body starts (`f.tell()`)
+  st : GState
+  pos : Nat               -- current file position
+
+inductive Act where | next | close
+  deriving Repr, DecidableEq
+
+def Gen.init {α} (run : GenRun α) (fixed : Bool) (start : Nat) : Gen α := ⟨run, fixed, start, .fresh, start⟩
+
+/-- advance to item `k` or to the end of the body -/
+def Gen.advance {α} (g : Gen α) (k : Nat) : Gen α :=
+  match g.run.items[k]? with
+  | some it => { g with st := .suspended k, pos := it.2 }
+  | none =>
+      -- body runs to its end (normal return or raise)
+      if g.fixed then { g with st := .finished, pos := g.start }                 -- finally: seek(start, SEEK_SET)
+      else match g.run.err with
+        | none => { g with st := .finished, pos := g.run.endPos + g.start }      -- seek(start, SEEK_CUR)
+        | some _ => { g with st := .finished, pos := g.run.endPos }              -- raised before the seek
+
+def Gen.step {α} (g : Gen α) : Act → Gen α
+  | .next => match g.st with
+      | .fresh => g.advance 0
+      | .suspended k => g.advance (k + 1)
+      | .finished => g
+  | .close => match g.st with
+      | .fresh => { g with st := .finished }                 -- body never ran
+      | .suspended _ =>
+          if g.fixed then { g with st := .finished, pos := g.start }   -- GeneratorExit → finally
+          else { g with st := .finished }                               -- original: position stays
+      | .finished => g
+
+/-- items delivered to the consumer by a history of actions -/
+def Gen.runActs {α} (g : Gen α) (acts : List Act) : Gen α := acts.foldl Gen.step g
+
+/-! ## TRK names (trk.py:122-200) -/
+
+abbrev Name := List Nat    -- latin-1 code points
+
+/-- `encode_value_in_name(value, name, max_name_len=20)` -/
+def encodeName (value : Nat) (name : Name) (maxLen : Nat := 20) : Except Err (List Nat) :=
+  if name.length > maxLen then .error .value
+  else
+    let enc := if value ≤ 1 then name else name ++ [0] ++ decRepr value
+    if enc.length > maxLen then .error .value
+    else .ok (enc ++ List.replicate (maxLen - enc.length) 0)
+
+/-- `s.rstrip('\x00')` -/
+def rstripNul (s : List Nat) : List Nat := (s.reverse.dropWhile (· == 0)).reverse
+
+/-- `s.split('\x00')` -/
+def splitNul : List Nat → List (List Nat)
+  | [] => [[]]
+  | c :: cs =>
+      match splitNul cs with
+      | [] => [[]]   -- unreachable
+      | p :: ps => if c == 0 then [] :: p :: ps else (c :: p) :: ps
+
+/-- `decode_value_from_name(encoded_name)` -/
+def decodeName (enc : List Nat) : Except Err (Name × Nat) :=
+  if enc.isEmpty then .ok ([], 0)
+  else
+    match splitNul (rstripNul enc) with
+    | [n] => .ok (n, 1)
+    | [n, v] => match parseDec v with
+        | some k => .ok (n, k)
+        | none => .error .value
+    | _ => .error .header
+
+/-- NumPy `S20` item access strips trailing NUL bytes -/
+def s20 (field : List Nat) : List Nat := rstripNul field
+
+/-- Python dict assignment `d[k] = v` on an insertion-ordered association list -/
+def dictSet {κ β} [DecidableEq κ] (d : List (κ × β)) (k : κ) (v : β) : List (κ × β) :=
+  if d.any (·.1 == k) then d.map (fun e => if e.1 == k then (k, v) else e) else d ++ [(k, v)]
+
+/-- the name-table loops of `TrkFile.load` (trk.py:320-354): `nb` = header count
+    (`nb_scalars_per_point` / `nb_properties_per_streamline`), `fields` = the ten S20 items,
+    `dflt` = 'scalars' / 'properties'.  Result: name ↦ (start, stop). -/
+def nameSlicesLoop : List (List Nat) → Nat → List (Name × Nat × Nat) → Except Err (List (Name × Nat × Nat) × Nat)
+  | [], cpt, acc => .ok (acc, cpt)
+  | f :: fs, cpt, acc =>
+      match decodeName (s20 f) with
+      | .error e => .error e
+      | .ok (name, k) =>
+          if k == 0 then nameSlicesLoop fs cpt acc
+          else nameSlicesLoop fs (cpt + k) (dictSet acc name (cpt, cpt + k))
+
+def nameSlices (nb : Nat) (fields : List (List Nat)) (dflt : Name) : Except Err (List (Name × Nat × Nat)) :=
+  if nb == 0 then .ok []
+  else match nameSlicesLoop fields 0 [] with
+    | .error e => .error e
+    | .ok (acc, cpt) => .ok (if cpt < nb then dictSet acc dflt (cpt, nb) else acc)
+
+/-- the name table written by `TrkFile.save` (trk.py:465-501) for the (sorted) keys of the first
+    item with their numbers of columns; more than ten → ValueError; unused fields are zero -/
+def nameTable (cols : List (Name × Nat)) : Except Err (List (List Nat)) :=
+  if cols.length > 10 then .error .value
+  else do
+    let encs ← cols.mapM (fun c => encodeName c.2 c.1)
+    pure (encs ++ List.replicate (10 - cols.length) (List.replicate 20 0))
+
+def scalarsName : Name := [115, 99, 97, 108, 97, 114, 115]                     -- 'scalars'
+def propertiesName : Name := [112, 114, 111, 112, 101, 114, 116, 105, 101, 115] -- 'properties'
+
+
+/-! ## TRK records (trk.py:503-524 writer, 676-729 reader), at the level of 32-bit words -/
+
+/-- `TrkFile.HEADER_SIZE` = itemsize of the header dtype: the data start right after it -/
+def trkHeaderSize : Nat := 1000
+
+/-- one record as the reader yields it: `rows` = per point the 3 coordinates followed by the
+    `nb_scalars_per_point` scalars, `props` = the `nb_properties_per_streamline` properties -/
+structure TrkRec where
+  rows : List (List Nat)
+  props : List Nat
+  deriving Repr, DecidableEq, Inhabited
+
+/-- `struct.pack('<i', len(points)) + pts_scalars.tobytes() + properties.tobytes()` -/
+def trkRecWords (r : TrkRec) : List Nat := r.rows.length :: (r.rows.flatten ++ r.props)
+
+def trkDataWords (recs : List TrkRec) : List Nat := (recs.map trkRecWords).flatten
+
+/-- `np.ndarray(shape=(n, w), buffer=...)`: n rows of w words -/
+def chunkRows (w : Nat) : Nat → List Nat → List (List Nat)
+  | 0, _ => []
+  | n + 1, l => l.take w :: chunkRows w n (l.drop w)
+
+/-- `TrkFile._read` loop.  `announced` = header `nb_streamlines` (0 = not provided: read to EOF),
+    `words` = the file from the current position to its end, `count` = records read so far. -/
+def trkLoop (ns np announced : Nat) (words : List Nat) (count pos : Nat) : GenRun TrkRec :=
+  if announced ≠ 0 ∧ announced ≤ count then ⟨[], none, pos⟩          -- `while count < nb_streamlines`
+  else
+    match words with
+    | [] => ⟨[], if count < announced then some .data else none, pos⟩  -- `len(nb_pts_str) == 0: break`, then the C08 check
+    | n :: rest =>
+        let need := n * (3 + ns)
+        if 2147483648 ≤ n then ⟨[], some .short, pos + 4⟩              -- negative int32: np.ndarray raises ValueError
+        else if rest.length < need then ⟨[], some .short, pos + 4 + 4 * rest.length⟩   -- buffer too small: TypeError
+        else if (rest.drop need).length < np then ⟨[], some .short, pos + 4 + 4 * rest.length⟩
+        else
+          let rec_ : TrkRec := ⟨chunkRows (3 + ns) n (rest.take need), (rest.drop need).take np⟩
+          let pos' := pos + 4 + 4 * need + 4 * np
+          let r := trkLoop ns np announced ((rest.drop need).drop np) (count + 1) pos'
+          { r with items := (rec_, pos') :: r.items }
+termination_by words.length
+decreasing_by simp [List.length_drop]; omega
+
+def trkRead (ns np announced off : Nat) (words : List Nat) : GenRun TrkRec :=
+  trkLoop ns np announced words 0 off
+
+/-! ## TRK save / load at the level of items (trk.py:465-545, 318-397) -/
+
+/-- a `TractogramItem` whose dicts are listed in sorted key order -/
+structure Item where
+  pts : List Triple
+  dpp : List (Name × List (List Nat))     -- data_for_points: name ↦ one row (k words) per point
+  dps : List (Name × List Nat)            -- data_for_streamline: name ↦ k words
+  deriving Repr, DecidableEq, Inhabited
+
+/-- the header fields `save` rewrites -/
+structure TrkCounts where
+  nStreams : Nat
+  ns : Nat
+  np : Nat
+  scalarFields : List (List Nat)
+  propFields : List (List Nat)
+  deriving Repr, DecidableEq, Inhabited
+
+def zeroFields : List (List Nat) := List.replicate 10 (List.replicate 20 0)
+
+def tripleWords (t : Triple) : List Nat := [t.1, t.2.1, t.2.2]
+
+/-- `np.concatenate([points, scalars], axis=1)` row `i` -/
+def itemRows (keys : List Name) (it : Item) : Except Err (List (List Nat)) :=
+  if it.dpp.any (fun d => d.2.length != it.pts.length) then .error .data    -- 'Missing scalars for some points!'
+  else do
+    let cols ← keys.mapM (fun k => match it.dpp.lookup k with | some v => .ok v | none => .error .value)
+    pure (it.pts.zipIdx.map (fun (p, i) => tripleWords p ++ (cols.map (fun c => c.getD i [])).flatten))
+
+def itemProps (keys : List Name) (it : Item) : Except Err (List Nat) := do
+  let vs ← keys.mapM (fun k => match it.dps.lookup k with | some v => .ok v | none => .error .value)
+  pure vs.flatten
+
+/-- `TrkFile.save` after the affine has been applied: counts, name tables and the data words -/
+def trkSaveItems (items : List Item) : Except Err (TrkCounts × List Nat) :=
+  match items with
+  | [] => .ok (⟨0, 0, 0, zeroFields, zeroFields⟩, [])
+  | first :: _ => do
+      let propFields ← nameTable (first.dps.map (fun d => (d.1, d.2.length)))
+      let scalarFields ← nameTable (first.dpp.map (fun d => (d.1, (d.2.headD []).length)))
+      let skeys := first.dpp.map (·.1)
+      let pkeys := first.dps.map (·.1)
+      let recs ← items.mapM (fun it => do
+        let rows ← itemRows skeys it
+        let props ← itemProps pkeys it
+        pure (⟨rows, props⟩ : TrkRec))
+      let nbPoints := (recs.map (·.rows.length)).sum
+      let nbScalars := (recs.map (fun r => (r.rows.map (fun row => row.length - 3)).sum)).sum
+      let nbProps := (recs.map (·.props.length)).sum
+      if nbPoints == 0 then .error .zerodiv
+      else if nbScalars % nbPoints != 0 then .error .data
+      else if nbProps % items.length != 0 then .error .data
+      else pure (⟨items.length, nbScalars / nbPoints, nbProps / items.length, scalarFields, propFields⟩,
+                 trkDataWords recs)
+
+def rowTriple (row : List Nat) : Triple := (row.getD 0 0, row.getD 1 0, row.getD 2 0)
+
+/-- slicing one yielded record by the name tables (`scals[:, v]`, `props[v]`) -/
+def recItem (dppS dpsS : List (Name × Nat × Nat)) (r : TrkRec) : Item :=
+  ⟨r.rows.map rowTriple,
+   dppS.map (fun s => (s.1, r.rows.map (fun row => pySlice (row.drop 3) s.2.1 s.2.2))),
+   dpsS.map (fun s => (s.1, pySlice r.props s.2.1 s.2.2))⟩
+
+/-- `TrkFile.load` before the affine is applied -/
+def trkLoadItems (h : TrkCounts) (words : List Nat) : Except Err (List Item) := do
+  let dppS ← nameSlices h.ns h.scalarFields scalarsName
+  let dpsS ← nameSlices h.np h.propFields propertiesName
+  let run := trkRead h.ns h.np h.nStreams 0 words
+  match run.err with
+  | some e => .error e
+  | none => pure (run.items.map (fun x => recItem dppS dpsS x.1))
+
+/-! ## Affines over `Rat` -/
+
+abbrev V3 := Rat × Rat × Rat
+
+structure Aff where
+  a00 : Rat
+  a01 : Rat
+  a02 : Rat
+  a10 : Rat
+  a11 : Rat
+  a12 : Rat
+  a20 : Rat
+  a21 : Rat
+  a22 : Rat
+  t0 : Rat
+  t1 : Rat
+  t2 : Rat
+  deriving Repr, DecidableEq, Inhabited
+
+def Aff.apply (A : Aff) (p : V3) : V3 :=
+  (A.a00 * p.1 + A.a01 * p.2.1 + A.a02 * p.2.2 + A.t0,
+   A.a10 * p.1 + A.a11 * p.2.1 + A.a12 * p.2.2 + A.t1,
+   A.a20 * p.1 + A.a21 * p.2.1 + A.a22 * p.2.2 + A.t2)
+
+/-- `np.dot(A, B)` for 4×4 affines: first `B`, then `A` -/
+def Aff.comp (A B : Aff) : Aff :=
+  { a00 := A.a00 * B.a00 + A.a01 * B.a10 + A.a02 * B.a20
+    a01 := A.a00 * B.a01 + A.a01 * B.a11 + A.a02 * B.a21
+    a02 := A.a00 * B.a02 + A.a01 * B.a12 + A.a02 * B.a22
+    a10 := A.a10 * B.a00 + A.a11 * B.a10 + A.a12 * B.a20
+    a11 := A.a10 * B.a01 + A.a11 * B.a11 + A.a12 * B.a21
+    a12 := A.a10 * B.a02 + A.a11 * B.a12 + A.a12 * B.a22
+    a20 := A.a20 * B.a00 + A.a21 * B.a10 + A.a22 * B.a20
+    a21 := A.a20 * B.a01 + A.a21 * B.a11 + A.a22 * B.a21
+    a22 := A.a20 * B.a02 + A.a21 * B.a12 + A.a22 * B.a22
+    t0 := A.a00 * B.t0 + A.a01 * B.t1 + A.a02 * B.t2 + A.t0
+    t1 := A.a10 * B.t0 + A.a11 * B.t1 + A.a12 * B.t2 + A.t1
+    t2 := A.a20 * B.t0 + A.a21 * B.t1 + A.a22 * B.t2 + A.t2 }
+
+def Aff.det (A : Aff) : Rat :=
+  A.a00 * (A.a11 * A.a22 - A.a12 * A.a21) - A.a01 * (A.a10 * A.a22 - A.a12 * A.a20) +
+  A.a02 * (A.a10 * A.a21 - A.a11 * A.a20)
+
+/-- exact inverse (adjugate / determinant); stands for `numpy.linalg.inv`.  Meaningful for `det ≠ 0`
+    (NumPy raises LinAlgError for an exactly singular matrix). -/
+def Aff.inv (A : Aff) : Aff :=
+  let d := A.det
+  let b00 := (A.a11 * A.a22 - A.a12 * A.a21) / d
+  let b01 := (A.a02 * A.a21 - A.a01 * A.a22) / d
+  let b02 := (A.a01 * A.a12 - A.a02 * A.a11) / d
+  let b10 := (A.a12 * A.a20 - A.a10 * A.a22) / d
+  let b11 := (A.a00 * A.a22 - A.a02 * A.a20) / d
+  let b12 := (A.a02 * A.a10 - A.a00 * A.a12) / d
+  let b20 := (A.a10 * A.a21 - A.a11 * A.a20) / d
+  let b21 := (A.a01 * A.a20 - A.a00 * A.a21) / d
+  let b22 := (A.a00 * A.a11 - A.a01 * A.a10) / d
+  { a00 := b00, a01 := b01, a02 := b02, a10 := b10, a11 := b11, a12 := b12, a20 := b20, a21 := b21, a22 := b22
+    t0 := -(b00 * A.t0 + b01 * A.t1 + b02 * A.t2)
+    t1 := -(b10 * A.t0 + b11 * A.t1 + b12 * A.t2)
+    t2 := -(b20 * A.t0 + b21 * A.t1 + b22 * A.t2) }
+
+/-! ## Orientations (orientations.py:94-128, 171-224, 251-342) -/
+
+/-- one row per axis: (output axis, flip ∈ {1,-1}) -/
+abbrev Ornt := List (Nat × Int)
+
+/-- `axcodes2ornt(codes)` with the default labels (('L','R'),('P','A'),('I','S')); the TRK reader
+    upper-cases the header's voxel order first -/
+def axcodeOrnt (c : Char) : Option (Nat × Int) :=
+  match c.toUpper with
+  | 'L' => some (0, -1) | 'R' => some (0, 1)
+  | 'P' => some (1, -1) | 'A' => some (1, 1)
+  | 'I' => some (2, -1) | 'S' => some (2, 1)
+  | _ => none
+
+def axcodesToOrnt (codes : List Char) : Except Err Ornt :=
+  codes.mapM (fun c => match axcodeOrnt c with | some o => .ok o | none => .error .value)
+
+/-- `ornt2axcodes` with the default labels, for rows that name an axis 0..2 with flip ±1 -/
+def orntToAxcodes (o : Ornt) : List Char :=
+  o.map (fun r => match r.1, decide (r.2 = 1) with
+    | 0, true => 'R' | 0, false => 'L'
+    | 1, true => 'A' | 1, false => 'P'
+    | 2, true => 'S' | _, _ => 'I')
+
+/-- `ornt_transform(start_ornt, end_ornt)`; the result array starts as `np.empty_like` (modelled
+    as rows `(0, 0)`; every row is overwritten when both arguments are permutations) -/
+def orntTransform (start end_ : Ornt) : Except Err Ornt :=
+  if start.length ≠ end_.length then .error .value
+  else
+    end_.zipIdx.foldlM (fun (res : Ornt) (e : (Nat × Int) × Nat) =>
+      match start.findIdx? (fun s => s.1 == e.1.1) with
+      | some si => .ok (res.set si (e.2, if (start.getD si (0, 0)).2 == e.1.2 then 1 else -1))
+      | none => .error .value) (start.map (fun _ => (0, 0)))
+
+def unitRow (j : Nat) (f : Rat) : Rat × Rat × Rat :=
+  match j with
+  | 0 => (f, 0, 0) | 1 => (0, f, 0) | 2 => (0, 0, f) | _ => (0, 0, 0)
+
+/-- `inv_ornt_aff(ornt, shape)` for three axes: row `i` is `flip_i · e_{axis_i}`, translation
+    `flip_i·c_i − c_i` with `c_i = −(shape_i − 1)/2` -/
+def invOrntAff (o : Ornt) (dims : Int × Int × Int) : Aff :=
+  let r0 := o.getD 0 (0, 0)
+  let r1 := o.getD 1 (0, 0)
+  let r2 := o.getD 2 (0, 0)
+  let c (d : Int) : Rat := -(((d : Rat) - 1) / 2)
+  let tr (f : Int) (d : Int) : Rat := (f : Rat) * c d - c d
+  let u0 := unitRow r0.1 r0.2
+  let u1 := unitRow r1.1 r1.2
+  let u2 := unitRow r2.1 r2.2
+  { a00 := u0.1, a01 := u0.2.1, a02 := u0.2.2, a10 := u1.1, a11 := u1.2.1, a12 := u1.2.2
+    a20 := u2.1, a21 := u2.2.1, a22 := u2.2.2
+    t0 := tr r0.2 dims.1, t1 := tr r1.2 dims.2.1, t2 := tr r2.2 dims.2.2 }
+
+/-- the 48 orientations of three axes: a permutation of the output axes with a flip each -/
+def allOrnts : List Ornt :=
+  ([[0, 1, 2], [0, 2, 1], [1, 0, 2], [1, 2, 0], [2, 0, 1], [2, 1, 0]] : List (List Nat)).flatMap (fun p =>
+    ([[1, 1, 1], [1, 1, -1], [1, -1, 1], [1, -1, -1], [-1, 1, 1], [-1, 1, -1], [-1, -1, 1], [-1, -1, -1]] :
+      List (List Int)).map (fun f => p.zip f))
+
+/-- the geometry fields of a TRK header -/
+structure TrkGeom where
+  vs : V3                       -- voxel_sizes
+  dims : Int × Int × Int        -- dimensions
+  order : List Char             -- voxel_order
+  v2r : Aff                     -- voxel_to_rasmm
+  deriving Repr, Inhabited
+
+def scaleInv (vs : V3) : Aff :=
+  { a00 := 1 / vs.1, a01 := 0, a02 := 0, a10 := 0, a11 := 1 / vs.2.1, a12 := 0, a20 := 0, a21 := 0, a22 := 1 / vs.2.2
+    t0 := 0, t1 := 0, t2 := 0 }
+
+def shiftHalf : Aff :=
+  { a00 := 1, a01 := 0, a02 := 0, a10 := 0, a11 := 1, a12 := 0, a20 := 0, a21 := 0, a22 := 1
+    t0 := -(1 / 2), t1 := -(1 / 2), t2 := -(1 / 2) }
+
+/-- `get_affine_trackvis_to_rasmm(header)` (trk.py:60-115).  `affOrnt` = `io_orientation(vox_to_ras)`
+    (external). -/
+def trackvisToRas (g : TrkGeom) (affOrnt : Ornt) : Except Err Aff := do
+  let headerOrnt ← axcodesToOrnt g.order
+  let affineOrnt ← axcodesToOrnt (orntToAxcodes affOrnt)
+  let o ← orntTransform headerOrnt affineOrnt
+  let M := invOrntAff o g.dims
+  pure (g.v2r.comp (M.comp (shiftHalf.comp (scaleInv g.vs))))
+
+/-- `get_affine_rasmm_to_trackvis(header)` = `np.linalg.inv(...)` -/
+def rasToTrackvis (g : TrkGeom) (affOrnt : Ornt) : Except Err Aff := (trackvisToRas g affOrnt).map Aff.inv
+
+/-- stand-in for `io_orientation` on matrices whose 3×3 part has exactly one non-zero entry in
+    every column and every row (signed permutation × zooms): (row of the entry, its sign) -/
+def ioOrientSP (A : Aff) : Option Ornt :=
+  let col (x y z : Rat) : Option (Nat × Int) :=
+    if x ≠ 0 ∧ y = 0 ∧ z = 0 then some (0, if x < 0 then -1 else 1)
+    else if x = 0 ∧ y ≠ 0 ∧ z = 0 then some (1, if y < 0 then -1 else 1)
+    else if x = 0 ∧ y = 0 ∧ z ≠ 0 then some (2, if z < 0 then -1 else 1)
+    else none
+  match col A.a00 A.a10 A.a20, col A.a01 A.a11 A.a21, col A.a02 A.a12 A.a22 with
+  | some c0, some c1, some c2 =>
+      if c0.1 ≠ c1.1 ∧ c0.1 ≠ c2.1 ∧ c1.1 ≠ c2.1 then some [c0, c1, c2] else none
+  | _, _, _ => none
+
+/-! ## float32 ⇄ Rat (exact) -/
+
+def pow2 (e : Int) : Rat := if e ≥ 0 then ((2 ^ e.toNat : Nat) : Rat) else 1 / ((2 ^ (-e).toNat : Nat) : Rat)
+
+/-- value of a finite float32 bit pattern -/
+def f32ToRat (w : Nat) : Option Rat :=
+  let e := (w >>> 23) &&& 0xFF
+  let m := w &&& 0x7FFFFF
+  let s : Rat := if w &&& 0x80000000 != 0 then -1 else 1
+  if e == 255 then none
+  else if e == 0 then some (s * (m : Rat) * pow2 (-149))
+  else some (s * ((m + 0x800000 : Nat) : Rat) * pow2 ((e : Int) - 150))
+
+/-- the float32 whose value is exactly `x`, if there is one (`+0` for 0) -/
+def f32OfRat (x : Rat) : Option Nat :=
+  if x = 0 then some 0
+  else
+    let sign : Nat := if x < 0 then 0x80000000 else 0
+    let a : Rat := if x < 0 then -x else x
+    let e0 : Int := (a.num.toNat.log2 : Int) - (a.den.log2 : Int)
+    let e : Int := if a < pow2 e0 then e0 - 1 else e0
+    if e > 127 then none
+    else if e ≥ -126 then
+      let m := a * pow2 (23 - e)
+      if m.den = 1 then some (sign + ((e + 127).toNat <<< 23) + (m.num.toNat - 0x800000)) else none
+    else
+      let m := a * pow2 149
+      if m.den = 1 then some (sign + m.num.toNat) else none
+
+def tripleToV3 (t : Triple) : Option V3 := do
+  let x ← f32ToRat t.1
+  let y ← f32ToRat t.2.1
+  let z ← f32ToRat t.2.2
+  pure (x, y, z)
+
+def v3ToTriple (p : V3) : Option Triple := do
+  let x ← f32OfRat p.1
+  let y ← f32OfRat p.2.1
+  let z ← f32OfRat p.2.2
+  pure (x, y, z)
+
+/-- `apply_affine(A, pts)` on float32 data, defined where every result is exactly representable -/
+def applyAffBits (A : Aff) (t : Triple) : Option Triple := do
+  let p ← tripleToV3 t
+  v3ToTriple (A.apply p)
+
+/-! ## LazyTractogram with a pending affine (tractogram.py:708-725 `.streamlines`, 753-770 `.data`)
+
+  A lazily loaded TRK tractogram keeps the reader's raw (trackvis-space) items and the pending
+  affine `_affine_to_apply`.  Both the `.streamlines` property and (after the fix "LazyTractogram.data
+  applies the pending affine to the items it yields") the item iteration used by `save` apply it.
+  (`np.allclose(affine, eye)` only skips a multiplication by the identity.) -/
+
+def lazyStreamlines (A : Aff) (raw : List Item) : Option (List (List Triple)) :=
+  raw.mapM (fun it => it.pts.mapM (applyAffBits A))
+
+def lazyItems (A : Aff) (raw : List Item) : Option (List Item) :=
+  raw.mapM (fun it => (it.pts.mapM (applyAffBits A)).map (fun p => { it with pts := p }))
+
+/-- the ORIGINAL `LazyTractogram.data`: `return self._data()` — the pending affine is ignored -/
+def lazyItemsOrig (_A : Aff) (raw : List Item) : Option (List Item) := some raw
 
 end Nb.C16
